@@ -32,6 +32,8 @@ def run(c):
     from rules import c03
     c03.r7(c, rid="C01.R9")
     r10_all_rows_all_rules(c)
+    # the patch types the text of the diff row: a row folded to lower case although its own rule is not %ignore_case is sent lower-cased, and the device then differs from `new`
+    c03.r10(c, rid="C01.R11")
 
 
 # --------------------------------------------------------------------------- R1
